@@ -511,4 +511,8 @@ def innermost_in_verif(exc):
     if last is None:
         return True
     fn = last.tb_frame.f_code.co_filename
+    if fn.endswith('rxsim/funcs.py'):
+        # a *user function* raised: the system under test called it with something the generator's type
+        # discipline rules out (stale or foreign state).  That is behaviour of the system, not of the harness.
+        return False
     return fn.startswith('/verif/') or '/verif/' in fn
